@@ -5,6 +5,7 @@ import SqlVerif.Model.Tokenizer
 Part A: everything the loop `tokLoop` guarantees, for an arbitrary token function `next` that
 (1) leaves a proper suffix of its input and (2) returns `none` only on empty input (`NextOK`).
 Part B: `nextToken env` has these two properties, for every `env`.
+Part C: when a token determines its source text (`Token.text`), the consumed slice is that text.
 -/
 namespace SqlVerif.Tok
 open SqlVerif.Scan
@@ -176,6 +177,24 @@ theorem tokLoop_suffix {T} {next : List Nat → Except LexErr (Option (T × List
       · simp only [List.cons_append, List.cons.injEq] at ht
         rw [← ht.2] at hrec
         exact ih _ _ _ _ hrec
+
+/-- every entry records one successful call of the token function: its token, and as slice the
+prefix that call consumed -/
+theorem tokLoop_entries {T} {next : List Nat → Except LexErr (Option (T × List Nat))} (h : NextOK next) :
+    ∀ (fuel : Nat) (s : List Nat) (loc : Loc) (ts : List (Entry T)),
+      tokLoop next fuel s loc = .ok ts →
+      ∀ x ∈ ts, ∃ rest, next (x.slice ++ rest) = .ok (some (x.tok, rest)) := by
+  intro fuel
+  induction fuel with
+  | zero => intro s loc ts e; simp [tokLoop] at e
+  | succ n ih =>
+    intro s loc ts e x hx
+    rcases tokLoop_step h e with ⟨_, ht⟩ | ⟨t, pre, rest, ts', _, hs, hn, hrec, ht⟩
+    · subst ht; simp at hx
+    · subst ht
+      rcases List.mem_cons.1 hx with rfl | hx
+      · exact ⟨rest, by show next (pre ++ rest) = _; rw [← hs]; exact hn⟩
+      · exact ih _ _ _ hrec x hx
 
 /-! ### locations -/
 
@@ -772,5 +791,420 @@ theorem nextToken_eof (env : Env) (s : List Nat) (h : nextToken env s = .ok none
 
 theorem nextToken_ok (env : Env) : NextOK (nextToken env) :=
   ⟨nextToken_suffix env, nextToken_eof env⟩
+
+/-! ## Part C — the slice of a token is its text -/
+
+/-- the source text a token stands for, when the token alone determines it (`Display for Token`).
+`none` for quoted literals and delimited identifiers (their slice carries quotes/escapes), for
+`Neq` (`<>` or `!=`), `Newline` (`\n`, `\r`, `\r\n`), `Space` (any whitespace character) and
+`HexStringLiteral` (`X'…'` or `0x…`). -/
+def Token.text : Token → Option (List Nat)
+  | .word w => if w.quote = none then some w.value else none
+  | .number s l => some (s ++ if l then [76] else [])
+  | .char c => some [c]
+  | .comma => some [44]
+  | .whitespace .tab => some [9]
+  | .whitespace (.singleLineComment c p) => some (p ++ c)
+  | .whitespace (.multiLineComment s) => some ([47, 42] ++ s ++ [42, 47])
+  | .doubleEq => some [61, 61] | .eq => some [61] | .lt => some [60] | .gt => some [62]
+  | .ltEq => some [60, 61] | .gtEq => some [62, 61] | .spaceship => some [60, 61, 62]
+  | .plus => some [43] | .minus => some [45] | .mul => some [42] | .div => some [47]
+  | .duckIntDiv => some [47, 47] | .mod => some [37] | .stringConcat => some [124, 124]
+  | .lParen => some [40] | .rParen => some [41] | .period => some [46] | .colon => some [58]
+  | .doubleColon => some [58, 58] | .assignment => some [58, 61] | .semiColon => some [59]
+  | .backslash => some [92] | .lBracket => some [91] | .rBracket => some [93]
+  | .ampersand => some [38] | .pipe => some [124] | .caret => some [94] | .lBrace => some [123]
+  | .rBrace => some [125] | .rArrow => some [61, 62] | .sharp => some [35]
+  | .tilde => some [126] | .tildeAsterisk => some [126, 42]
+  | .exclamationMarkTilde => some [33, 126] | .exclamationMarkTildeAsterisk => some [33, 126, 42]
+  | .doubleTilde => some [126, 126] | .doubleTildeAsterisk => some [126, 126, 42]
+  | .exclamationMarkDoubleTilde => some [33, 126, 126]
+  | .exclamationMarkDoubleTildeAsterisk => some [33, 126, 126, 42]
+  | .shiftLeft => some [60, 60] | .shiftRight => some [62, 62] | .overlap => some [38, 38]
+  | .exclamationMark => some [33] | .doubleExclamationMark => some [33, 33] | .atSign => some [64]
+  | .caretAt => some [94, 64] | .pgSquareRoot => some [124, 47] | .pgCubeRoot => some [124, 124, 47]
+  | .placeholder s => some s
+  | .arrow => some [45, 62] | .longArrow => some [45, 62, 62] | .hashArrow => some [35, 62]
+  | .hashLongArrow => some [35, 62, 62] | .atArrow => some [64, 62] | .arrowAt => some [60, 64]
+  | .hashMinus => some [35, 45] | .atQuestion => some [64, 63] | .atAt => some [64, 64]
+  | .question => some [63] | .questionAnd => some [63, 38] | .questionPipe => some [63, 124]
+  | .customBinaryOperator s => some s
+  | _ => none
+
+/-- `pre` = characters of the token already consumed, `cs` = input after them: if the branch
+result has a text, the text is exactly what was consumed -/
+def TextE (pre : List Nat) (r : Res) (cs : List Nat) : Prop :=
+  ∀ t rest x, r = .ok (t, rest) → t.text = some x → pre ++ cs = x ++ rest
+
+theorem textE_error (pre e cs) : TextE pre (.error e) cs := by
+  intro t rest x h; simp at h
+
+/-- leaves `.ok (token, rest)` with a concrete token -/
+macro "text_leaf" : tactic =>
+  `(tactic| (intro t rest x h ht; cases h; cases ht <;> first | rfl | (simp; done)))
+
+theorem takeWhile_nil_dropWhile {p : Nat → Bool} {l : List Nat} (h : l.takeWhile p = []) :
+    l.dropWhile p = l := by
+  have := List.takeWhile_append_dropWhile (p := p) (l := l)
+  rw [h] at this; simpa using this
+
+theorem binop_text (env : Env) (pfx : String) (d : Token) (pre cs cs' : List Nat)
+    (hd : ∀ x, d.text = some x → x = str pfx) (hcs : pre ++ cs = str pfx ++ cs') :
+    TextE pre (binop env pfx d cs') cs := by
+  intro t rest x h ht
+  simp only [binop, startBinop, Except.ok.injEq, Prod.mk.injEq] at h
+  obtain ⟨rfl, rfl⟩ := h
+  rw [hcs]
+  split at ht
+  · rename_i hk
+    simp only [List.isEmpty_iff] at hk
+    rw [hd x ht, takeWhile_nil_dropWhile hk]
+  · cases ht
+    rw [List.append_assoc, List.takeWhile_append_dropWhile]
+
+theorem textE_mono_eq {pre cs pre' cs' : List Nat} {r : Res} (h : pre ++ cs = pre' ++ cs')
+    (h0 : TextE pre' r cs') : TextE pre r cs := by
+  intro t rest x e ht; rw [h]; exact h0 t rest x e ht
+
+theorem singleLineComment_split (s : List Nat) : (singleLineComment s).1 ++ (singleLineComment s).2 = s := by
+  unfold singleLineComment
+  split
+  · rename_i h
+    have := List.takeWhile_append_dropWhile (p := fun c => c != 10) (l := s)
+    rw [h] at this; simpa using this
+  · rename_i c r h
+    have := List.takeWhile_append_dropWhile (p := fun c => c != 10) (l := s)
+    rw [h] at this; simpa using this
+
+theorem lineComment_text (pfx : String) (pre cs cs' : List Nat) (h : pre ++ cs = str pfx ++ cs') :
+    TextE pre (lineComment pfx cs') cs := by
+  intro t rest x e ht
+  cases e; cases ht
+  rw [h, List.append_assoc, singleLineComment_split]
+
+theorem tokenizeWord_split (env : Env) (first cs : List Nat) :
+    (tokenizeWord env first cs).1 ++ (tokenizeWord env first cs).2 = first ++ cs := by
+  simp [tokenizeWord, List.takeWhile_append_dropWhile]
+
+theorem mkWord_text (env : Env) (w : List Nat) : (mkWord env w none).text = some w := rfl
+theorem mkWord_quoted_text (env : Env) (w : List Nat) (q : Nat) : (mkWord env w (some q)).text = none := rfl
+
+theorem takeWhile_of_all {p : Nat → Bool} : ∀ {l : List Nat}, l.all p = true → l.takeWhile p = l
+  | [], _ => rfl
+  | a :: l, h => by
+    simp only [List.all_cons, Bool.and_eq_true] at h
+    simp [h.1, takeWhile_of_all h.2]
+
+theorem identOrKeyword_text (env : Env) (first pre cs cs' : List Nat) (h : pre ++ cs = first ++ cs') :
+    TextE pre (identOrKeyword env first cs') cs := by
+  intro t rest x e ht
+  rw [h, ← tokenizeWord_split env first cs']
+  unfold identOrKeyword at e
+  dsimp only at e
+  split at e
+  · rename_i hall
+    cases e; cases ht
+    rw [takeWhile_of_all hall]
+    simp [List.takeWhile_append_dropWhile]
+  · cases e
+    rw [mkWord_text] at ht
+    cases ht; rfl
+
+theorem wordFrom_text (env : Env) (first pre cs cs' : List Nat) (h : pre ++ cs = first ++ cs') :
+    TextE pre (wordFrom env first cs') cs := by
+  intro t rest x e ht
+  rw [h, ← tokenizeWord_split env first cs']
+  unfold wordFrom at e
+  cases e
+  rw [mkWord_text] at ht
+  cases ht; rfl
+
+theorem push_eq_some {a : List Nat} {o : Option (List Nat × List Nat)} {p r : List Nat}
+    (h : push a o = some (p, r)) : ∃ p', o = some (p', r) ∧ p = a ++ p' := by
+  cases o with
+  | none => simp [Scan.push] at h
+  | some y => obtain ⟨p', r'⟩ := y; simp [Scan.push] at h; exact ⟨p', by rw [h.2], h.1.symm⟩
+
+/-- what `multiLineBody` consumed is what it pushed plus the final `/`; the last thing pushed
+(or `last` if nothing was) is `*` -/
+theorem multiLineBody_split : ∀ (last nested : Nat) (s p r : List Nat),
+    multiLineBody last nested s = some (p, r) → s = p ++ 47 :: r ∧ ∃ q, last :: p = q ++ [42] := by
+  intro last nested s
+  fun_induction multiLineBody last nested s <;> intro p r e
+  · simp at e
+  · rename_i ih
+    obtain ⟨p', e', rfl⟩ := push_eq_some e
+    obtain ⟨h1, q, h2⟩ := ih p' r e'
+    refine ⟨by rw [h1]; simp, ?_⟩
+    rw [show [_] ++ p' = _ :: p' from rfl, h2]
+    exact ⟨_ :: q, rfl⟩
+  · rename_i hc _
+    cases e
+    exact ⟨by simp [hc.2], [], by simp [hc.1]⟩
+  · rename_i ih
+    obtain ⟨p', e', rfl⟩ := push_eq_some e
+    obtain ⟨h1, q, h2⟩ := ih p' r e'
+    refine ⟨by rw [h1]; simp, ?_⟩
+    rw [show [_] ++ p' = _ :: p' from rfl, h2]
+    exact ⟨_ :: q, rfl⟩
+  · rename_i ih
+    obtain ⟨p', e', rfl⟩ := push_eq_some e
+    obtain ⟨h1, q, h2⟩ := ih p' r e'
+    refine ⟨by rw [h1]; simp, ?_⟩
+    rw [show [_] ++ p' = _ :: p' from rfl, h2]
+    exact ⟨_ :: q, rfl⟩
+
+theorem lexMultiLineComment_text (pre cs cs' : List Nat) (h : pre ++ cs = [47, 42] ++ cs') :
+    TextE pre (lexMultiLineComment cs') cs := by
+  intro t rest x e ht
+  rw [h]
+  unfold lexMultiLineComment scanMultiLineComment at e
+  split at e
+  · simp [ofScan] at e
+  · rename_i p r hb
+    simp only [ofScan, Except.ok.injEq, Prod.mk.injEq] at e
+    obtain ⟨rfl, rfl⟩ := e
+    cases ht
+    obtain ⟨h1, q, h2⟩ := multiLineBody_split 32 1 cs' p r hb
+    cases q with
+    | nil => simp at h2
+    | cons a q =>
+      simp only [List.cons_append, List.cons.injEq] at h2
+      rw [h1, h2.2]
+      simp
+
+theorem ofScan_text (f : List Nat → Token) (hf : ∀ p, (f p).text = none) (pre x cs) :
+    TextE pre (ofScan f x) cs := by
+  intro t rest y e ht
+  cases x with
+  | error err => simp [ofScan] at e
+  | ok v => obtain ⟨a, b⟩ := v; simp only [ofScan] at e; cases e; rw [hf] at ht; cases ht
+
+theorem singleOrTriple_text (env : Env) (q : Nat) (bs : Bool) (f g : List Nat → Token)
+    (hf : ∀ p, (f p).text = none) (hg : ∀ p, (g p).text = none) (pre s cs) :
+    TextE pre (singleOrTriple env q bs f g s) cs := by
+  intro t rest y e ht
+  unfold singleOrTriple at e
+  split at e
+  · simp at e
+  · cases e; rw [hf] at ht; cases ht
+  · cases e; rw [hg] at ht; cases ht
+
+/-- closes every leaf of an unfolded, fully split branch function -/
+macro "text_tac" : tactic =>
+  `(tactic| first
+    | text_leaf
+    | exact textE_error _ _ _
+    | exact binop_text _ _ _ _ _ _ (fun _ h => by cases h <;> rfl) (by rfl)
+    | exact lineComment_text _ _ _ _ (by rfl)
+    | exact identOrKeyword_text _ _ _ _ _ (by rfl)
+    | exact wordFrom_text _ _ _ _ _ (by rfl)
+    | exact lexMultiLineComment_text _ _ _ (by rfl)
+    | exact ofScan_text _ (fun _ => rfl) _ _ _
+    | exact singleOrTriple_text _ _ _ _ _ (fun _ => rfl) (fun _ => rfl) _ _ _)
+
+theorem lexMinus_text (env cs) : TextE [45] (lexMinus env cs) cs := by
+  unfold lexMinus; repeat' split
+  all_goals text_tac
+theorem lexSlash_text (env cs) : TextE [47] (lexSlash env cs) cs := by
+  unfold lexSlash; repeat' split
+  all_goals text_tac
+theorem lexPercent_text (env cs) : TextE [37] (lexPercent env cs) cs := by
+  unfold lexPercent; repeat' split
+  all_goals text_tac
+theorem lexPipe_text (env cs) : TextE [124] (lexPipe env cs) cs := by
+  unfold lexPipe; repeat' split
+  all_goals text_tac
+theorem lexEq_text (cs) : TextE [61] (lexEq cs) cs := by
+  unfold lexEq; repeat' split
+  all_goals text_tac
+theorem lexBang_text (cs) : TextE [33] (lexBang cs) cs := by
+  unfold lexBang; repeat' split
+  all_goals text_tac
+theorem lexLt_text (env cs) : TextE [60] (lexLt env cs) cs := by
+  unfold lexLt; repeat' split
+  all_goals text_tac
+theorem lexGt_text (env cs) : TextE [62] (lexGt env cs) cs := by
+  unfold lexGt; repeat' split
+  all_goals text_tac
+theorem lexColon_text (cs) : TextE [58] (lexColon cs) cs := by
+  unfold lexColon; repeat' split
+  all_goals text_tac
+theorem lexAmp_text (env cs) : TextE [38] (lexAmp env cs) cs := by
+  unfold lexAmp; repeat' split
+  all_goals text_tac
+theorem lexCaret_text (cs) : TextE [94] (lexCaret cs) cs := by
+  unfold lexCaret; repeat' split
+  all_goals text_tac
+theorem lexTilde_text (env cs) : TextE [126] (lexTilde env cs) cs := by
+  unfold lexTilde; repeat' split
+  all_goals text_tac
+theorem lexSharp_text (env cs) : TextE [35] (lexSharp env cs) cs := by
+  unfold lexSharp; repeat' split
+  all_goals text_tac
+theorem lexAt_text (env cs) : TextE [64] (lexAt env cs) cs := by
+  unfold lexAt; repeat' split
+  all_goals text_tac
+theorem lexQuestionPg_text (cs) : TextE [63] (lexQuestionPg cs) cs := by
+  unfold lexQuestionPg; repeat' split
+  all_goals text_tac
+theorem lexQuestion_text (env cs) : TextE [63] (lexQuestion env cs) cs := by
+  intro t rest x e ht
+  cases e; cases ht
+  simp [List.takeWhile_append_dropWhile]
+theorem lexByte_text (env b cs) : TextE [b] (lexByte env b cs) cs := by
+  unfold lexByte; repeat' split
+  all_goals text_tac
+theorem lexRaw_text (env b cs) : TextE [b] (lexRaw env b cs) cs := by
+  unfold lexRaw; repeat' split
+  all_goals text_tac
+theorem lexPrefixed_text (env f c cs) (hf : ∀ p, (f p).text = none) :
+    TextE [c] (lexPrefixed env f c cs) cs := by
+  unfold lexPrefixed; split
+  · exact ofScan_text _ hf _ _ _
+  · text_tac
+theorem lexEscaped_text (env c cs) : TextE [c] (lexEscaped env c cs) cs := by
+  unfold lexEscaped; repeat' split
+  all_goals text_tac
+theorem lexUnicode_text (env c cs) : TextE [c] (lexUnicode env c cs) cs := by
+  unfold lexUnicode; repeat' split
+  all_goals text_tac
+theorem lexQuote_text (env q f g s pre cs) (hf : ∀ p, (f p).text = none) (hg : ∀ p, (g p).text = none) :
+    TextE pre (lexQuote env q f g s) cs := by
+  unfold lexQuote; dsimp only; split
+  · exact singleOrTriple_text _ _ _ _ _ hf hg _ _ _
+  · exact ofScan_text _ hf _ _ _
+theorem lexQuotedIdent_text (env c cs) : TextE [c] (lexQuotedIdent env c cs) cs := by
+  unfold lexQuotedIdent; repeat' split
+  all_goals first
+    | exact textE_error _ _ _
+    | (intro t rest x e ht; cases e; rw [mkWord_quoted_text] at ht; cases ht)
+
+theorem expSign_split (r : List Nat) : expSign r ++ r.drop (expSign r).length = r := by
+  unfold expSign
+  split
+  · split <;> simp
+  · rfl
+
+theorem scanExponent_split (s3 r3 : List Nat) :
+    (scanExponent s3 r3).2.1 ++ (scanExponent s3 r3).2.2 = s3 ++ r3 := by
+  unfold scanExponent
+  split
+  · rfl
+  · rename_i e r
+    split
+    · dsimp only
+      have hs := expSign_split r
+      generalize hr : List.drop _ r = r' at hs
+      split
+      · split
+        · rw [List.append_assoc, List.append_assoc, List.takeWhile_append_dropWhile]
+          simp only [List.cons_append, hs]
+        · rfl
+      · rfl
+    · rfl
+
+theorem lexNumberTail_text (env : Env) (pre cs s2 r2 : List Nat) (h : pre ++ cs = s2 ++ r2) :
+    TextE pre (lexNumberTail env s2 r2) cs := by
+  intro t rest x e ht
+  rw [h]
+  unfold lexNumberTail at e
+  dsimp only at e
+  have hs3 : (s2 ++ r2.takeWhile isAsciiDigit) ++ r2.dropWhile isAsciiDigit = s2 ++ r2 := by
+    rw [List.append_assoc, List.takeWhile_append_dropWhile]
+  have h4 := scanExponent_split (s2 ++ r2.takeWhile isAsciiDigit) (r2.dropWhile isAsciiDigit)
+  split at e
+  · rename_i h3
+    cases e; cases ht
+    rw [← hs3, h3]
+  · split at e
+    · cases e
+      rw [mkWord_text] at ht; cases ht
+      rw [List.append_assoc, List.takeWhile_append_dropWhile, h4, hs3]
+    · split at e
+      · rename_i r5 h5
+        cases e; cases ht
+        rw [h5] at h4
+        rw [← hs3, ← h4]; simp
+      · cases e; cases ht
+        rw [← hs3, ← h4]; simp
+
+theorem lexNumber_text (env : Env) (s : List Nat) : TextE [] (lexNumber env s) s := by
+  unfold lexNumber
+  dsimp only
+  have hs := List.takeWhile_append_dropWhile (p := isAsciiDigit) (l := s)
+  split
+  · text_leaf
+  · split
+    · rename_i r h
+      refine lexNumberTail_text env _ _ _ _ ?_
+      rw [h] at hs
+      simp only [List.nil_append, List.append_assoc, List.cons_append]; exact hs.symm
+    · exact lexNumberTail_text env _ _ _ _ (by simp [hs])
+
+theorem lexDollar_text (env : Env) (cs : List Nat) : TextE [36] (lexDollar env cs) cs := by
+  unfold lexDollar
+  split
+  · split
+    · exact textE_error _ _ _
+    · text_leaf
+  · dsimp only
+    split
+    · split
+      · exact textE_error _ _ _
+      · text_leaf
+    · intro t rest x e ht
+      cases e; cases ht
+      simp [List.takeWhile_append_dropWhile]
+
+theorem textE_ite (c : Prop) [Decidable c] (pre : List Nat) (a b : Res) (cs : List Nat) :
+    TextE pre (if c then a else b) cs ↔ (c → TextE pre a cs) ∧ (¬ c → TextE pre b cs) := by
+  by_cases h : c <;> simp [h]
+
+theorem lexOp_text (env : Env) (c : Nat) (cs : List Nat) : TextE [c] (lexOp env c cs) cs := by
+  unfold lexOp
+  repeat' (rw [textE_ite]; refine ⟨fun h => ?_, fun _ => ?_⟩)
+  all_goals (try subst_vars)
+  all_goals (try (rename_i h; obtain ⟨rfl, _⟩ := h))
+  all_goals first
+    | text_tac
+    | exact lexSlash_text _ _ | exact lexPercent_text _ _ | exact lexPipe_text _ _ | exact lexEq_text _
+    | exact lexBang_text _ | exact lexLt_text _ _ | exact lexGt_text _ _ | exact lexColon_text _
+    | exact lexAmp_text _ _ | exact lexCaret_text _ | exact lexTilde_text _ _ | exact lexSharp_text _ _
+    | exact lexAt_text _ _ | exact lexQuestionPg_text _ | exact lexQuestion_text _ _
+    | exact lexDollar_text _ _
+
+theorem lexHead_text (env : Env) (c : Nat) (cs : List Nat) : TextE [c] (lexHead env c cs) cs := by
+  unfold lexHead
+  repeat' (rw [textE_ite]; refine ⟨fun h => ?_, fun _ => ?_⟩)
+  all_goals (try subst_vars)
+  all_goals (try split)
+  all_goals first
+    | text_tac
+    | exact lexByte_text _ _ _ | exact lexRaw_text _ _ _
+    | exact lexPrefixed_text _ _ _ _ (fun _ => rfl)
+    | exact lexEscaped_text _ _ _ | exact lexUnicode_text _ _ _
+    | exact lexQuote_text _ _ _ _ _ _ _ (fun _ => rfl) (fun _ => rfl)
+    | exact lexQuotedIdent_text _ _ _
+    | exact textE_mono_eq rfl (lexNumber_text _ _)
+    | exact lexMinus_text _ _
+    | exact lexOp_text _ _ _
+
+/-- **slice_is_text**: whenever the token determines its source text (`Token.text`: unquoted
+words, numbers, punctuation and operators, placeholders, custom operators, comments, `Char`),
+the characters consumed for it are exactly that text -/
+theorem nextToken_text (env : Env) (s : List Nat) (t : Token) (rest x : List Nat)
+    (h : nextToken env s = .ok (some (t, rest))) (ht : t.text = some x) : s = x ++ rest := by
+  unfold nextToken at h
+  split at h
+  · simp at h
+  · rename_i c cs
+    split at h
+    · simp at h
+    · rename_i r hr
+      simp at h
+      subst h
+      exact lexHead_text env c cs t rest x hr ht
+
 
 end SqlVerif.Tok
